@@ -11,7 +11,19 @@ Definition wire_bytes (fl : N) (d : bytes) : bytes := hdr_of fl (lenN d) ++ d.
 
 (* cleartext operations of an endpoint before the key is installed *)
 Inductive cop := CSend (d : bytes) (fl : N) | CRecv (fl : N) (d : bytes)
-               | CSetConn (addr : bytes).     (* SetConnection in the middle of the negotiation *)
+               | CSetConn (addr : bytes)      (* SetConnection / SetPeerAddr in the middle of the negotiation *)
+               | CSetAuth (b : bool)          (* SetAuthenticated: the flag only *)
+               | CNop.                        (* pure accessors: IsEncrypted, GetPeerAddr, IsConnected, GetConnection ... *)
+
+(* SetAuthenticated writes the flag and nothing else (stream.go SetAuthenticated) *)
+Definition set_auth (s : stream) (b : bool) : stream :=
+  {| key := key s; encrypted := encrypted s; authenticated := b;
+     enc_iv := enc_iv s; dec_iv := dec_iv s; enc_ctr := enc_ctr s; dec_ctr := dec_ctr s;
+     fin_send_aad := fin_send_aad s; fin_recv_aad := fin_recv_aad s;
+     send_dg := send_dg s; recv_dg := recv_dg s;
+     send_buf := send_buf s; send_eom := send_eom s;
+     recv_buf := recv_buf s; bytes_read := bytes_read s; total_msg := total_msg s; in_msg := in_msg s;
+     before_secret := before_secret s; peer_addr := peer_addr s |}.
 
 Definition clear_step (s : stream) (o : cop) : option stream :=
   match o with
@@ -19,6 +31,8 @@ Definition clear_step (s : stream) (o : cop) : option stream :=
   | CRecv fl d => match recv_frame_we s {| f_flag := fl; f_body := Raw d |} with
                   | (s1, SOk _) => Some s1 | (_, SErr _) => None end
   | CSetConn addr => Some (set_connection s addr)
+  | CSetAuth b => Some (set_auth s b)
+  | CNop => Some s
   end.
 Fixpoint clear_run (s : stream) (ops : list cop) : option stream :=
   match ops with
@@ -32,6 +46,8 @@ Fixpoint sent_bytes (ops : list cop) : bytes :=
   | CSend d fl :: r => wire_bytes fl d ++ sent_bytes r
   | CRecv _ _ :: r => sent_bytes r
   | CSetConn _ :: r => sent_bytes r
+  | CSetAuth _ :: r => sent_bytes r
+  | CNop :: r => sent_bytes r
   end.
 Fixpoint recvd_bytes (ops : list cop) : bytes :=
   match ops with
@@ -39,11 +55,15 @@ Fixpoint recvd_bytes (ops : list cop) : bytes :=
   | CRecv fl d :: r => wire_bytes fl d ++ recvd_bytes r
   | CSend _ _ :: r => recvd_bytes r
   | CSetConn _ :: r => recvd_bytes r
+  | CSetAuth _ :: r => recvd_bytes r
+  | CNop :: r => recvd_bytes r
   end.
 Fixpoint any_sent (ops : list cop) : bool :=
-  match ops with [] => false | CSend _ _ :: _ => true | CRecv _ _ :: r => any_sent r | CSetConn _ :: r => any_sent r end.
+  match ops with [] => false | CSend _ _ :: _ => true | CRecv _ _ :: r => any_sent r | CSetConn _ :: r => any_sent r
+               | CSetAuth _ :: r => any_sent r | CNop :: r => any_sent r end.
 Fixpoint any_recvd (ops : list cop) : bool :=
-  match ops with [] => false | CRecv _ _ :: _ => true | CSend _ _ :: r => any_recvd r | CSetConn _ :: r => any_recvd r end.
+  match ops with [] => false | CRecv _ _ :: _ => true | CSend _ _ :: r => any_recvd r | CSetConn _ :: r => any_recvd r
+               | CSetAuth _ :: r => any_recvd r | CNop :: r => any_recvd r end.
 
 (* a stream still in its cleartext phase: no key, digests running *)
 Record clear_phase (s : stream) (sb rb : bytes) (sw rw : bool) : Prop := {
@@ -89,7 +109,11 @@ Proof.
   induction ops as [|o ops IH]; intros s s' sb rb sw rw C Hr; cbn [clear_run] in Hr.
   - injection Hr as <-. cbn [sent_bytes recvd_bytes any_sent any_recvd]. rewrite !app_nil_r, !orb_false_r. exact C.
   - destruct (clear_step s o) as [s1|] eqn:E1; [|discriminate].
-    destruct o as [d fl|fl d|addr]; cbn [clear_step] in E1.
+    destruct o as [d fl|fl d|addr|b|]; cbn [clear_step] in E1.
+    5: { injection E1 as <-. specialize (IH _ _ _ _ _ _ C Hr). cbn [sent_bytes recvd_bytes any_sent any_recvd]. exact IH. }
+    4: { injection E1 as <-.
+         assert (C1 : clear_phase (set_auth s b) sb rb sw rw) by (destruct C as [Hk Hsd Hrd]; constructor; assumption).
+         specialize (IH _ _ _ _ _ _ C1 Hr). cbn [sent_bytes recvd_bytes any_sent any_recvd]. exact IH. }
     3: { injection E1 as <-.
          assert (C1 : clear_phase (set_connection s addr) sb rb sw rw) by (destruct C as [Hk Hsd Hrd]; constructor; assumption).
          specialize (IH _ _ _ _ _ _ C1 Hr). cbn [sent_bytes recvd_bytes any_sent any_recvd]. exact IH. }
@@ -114,17 +138,17 @@ Proof. unfold wire_bytes, hdr_of. cbn [app]. discriminate. Qed.
 Local Opaque hdr_of.
 
 Lemma any_sent_bytes ops : any_sent ops = false -> sent_bytes ops = [].
-Proof. induction ops as [|[d fl|fl d|addr] ops IH]; cbn; [reflexivity|discriminate|exact IH|exact IH]. Qed.
+Proof. induction ops as [|[d fl|fl d|addr|b|] ops IH]; cbn; [reflexivity|discriminate|exact IH|exact IH|exact IH|exact IH]. Qed.
 Lemma any_recvd_bytes ops : any_recvd ops = false -> recvd_bytes ops = [].
-Proof. induction ops as [|[d fl|fl d|addr] ops IH]; cbn; [reflexivity|exact IH|discriminate|exact IH]. Qed.
+Proof. induction ops as [|[d fl|fl d|addr|b|] ops IH]; cbn; [reflexivity|exact IH|discriminate|exact IH|exact IH|exact IH]. Qed.
 Lemma sent_bytes_any ops : any_sent ops = true -> sent_bytes ops <> [].
 Proof.
-  induction ops as [|[d fl|fl d|addr] ops IH]; cbn; [discriminate| |exact IH|exact IH].
+  induction ops as [|[d fl|fl d|addr|b|] ops IH]; cbn; [discriminate| |exact IH|exact IH|exact IH|exact IH].
   intros _ E. apply app_eq_nil in E as [E _]. exact (wire_bytes_nonempty _ _ E).
 Qed.
 Lemma recvd_bytes_any ops : any_recvd ops = true -> recvd_bytes ops <> [].
 Proof.
-  induction ops as [|[d fl|fl d|addr] ops IH]; cbn; [discriminate|exact IH| |exact IH].
+  induction ops as [|[d fl|fl d|addr|b|] ops IH]; cbn; [discriminate|exact IH| |exact IH|exact IH|exact IH].
   intros _ E. apply app_eq_nil in E as [E _]. exact (wire_bytes_nonempty _ _ E).
 Qed.
 
@@ -206,4 +230,30 @@ Lemma set_key_after_finalize s k iv : set_key (finalize_digests s) k iv = set_ke
 Proof.
   unfold set_key, finalize_digests. destruct (negb (lenN k =? KeyLen)); [reflexivity|].
   proj_simpl. rewrite !dg_finalize_idem. reflexivity.
+Qed.
+
+(* ---- the classes of Stream methods the handshake code may call, and the operation each stands for ---- *)
+Inductive copclass := KSend | KRecv | KSetAddr | KSetAuth | KNop    (* cleartext-phase operations: constructors of cop *)
+                    | KKey | KFinalize.                              (* what ends the cleartext phase *)
+Definition cop_class (o : cop) : copclass :=
+  match o with CSend _ _ => KSend | CRecv _ _ => KRecv | CSetConn _ => KSetAddr | CSetAuth _ => KSetAuth | CNop => KNop end.
+Definition cleartext_class (c : copclass) : bool := match c with KKey | KFinalize => false | _ => true end.
+
+Lemma cleartext_class_has_cop c : cleartext_class c = true -> exists o, cop_class o = c.
+Proof.
+  destruct c; cbn; intro E; try discriminate.
+  - exists (CSend [] 1). reflexivity.
+  - exists (CRecv 1 []). reflexivity.
+  - exists (CSetConn []). reflexivity.
+  - exists (CSetAuth true). reflexivity.
+  - exists CNop. reflexivity.
+Qed.
+
+(* operations that neither send nor receive leave both digests exactly as they were *)
+Lemma quiet_step_keeps_digests s o s' :
+  (cop_class o = KSetAddr \/ cop_class o = KSetAuth \/ cop_class o = KNop) -> clear_step s o = Some s' ->
+  send_dg s' = send_dg s /\ recv_dg s' = recv_dg s /\ key s' = key s.
+Proof.
+  destruct o as [d fl|fl d|addr|b|]; cbn [cop_class clear_step]; intros [E|[E|E]] H; try discriminate;
+    injection H as <-; repeat split; reflexivity.
 Qed.
